@@ -88,3 +88,40 @@ func vLexLE(a, b weight) bool {
 //@   call mapupdate#4 assert we.precedence == declarationPrecedence(sh.origin, decl.Important) && we.specificity == specificity
 //@   call mapupdate#4 assert oldWeight.isNone() || vLexLE(oldWeight, we)
 //@   call mapupdate#4 assert arg2.weight == we && arg1 == decl.Name
+
+//@ func (pageIndex).IsNone
+//@   props C12
+//@   inline
+
+// css-page-3 §3.2 page selectors: a page matches when every pseudo-class / name of the
+// selector agrees with the page, and `:nth(An+B)` matches page number i (1-based) iff
+// i = A*n + B for some integer n >= 0 (css-syntax An+B).
+//@ func pageTypeMatch
+//@   props C12 C05
+//@   nopanic
+//@   let sel = selectorPageType
+//@   let base = (sel.Side == "" || sel.Side == pageType.Side) && (!sel.Blank || pageType.Blank) && (!sel.First || pageType.First) && (sel.Name == "" || sel.Name == pageType.Name)
+//@   ensures[others] !base ==> !result
+//@   ensures[no-index] base && sel.Index.IsNone() ==> result
+//@   let A = sel.Index.A
+//@   let B = sel.Index.B
+//@   let idx = pageType.Index + 1
+//@   ensures[nth-sound] base && !sel.Index.IsNone() && result ==> (A == 0 && B == idx) || (A != 0 && (idx - B) / A >= 0 && A * ((idx - B) / A) + B == idx)
+//@   ensures[nth-complete] base && !sel.Index.IsNone() ==> forallI(n, n >= 0 && sel.Index.A * n + sel.Index.B == pageType.Index + 1 ==> result)
+
+// deep copy: allocates, changes nothing the caller can see (assumed, not verified: it goes
+// through map copies)
+//@ func (PageState).Copy
+//@   props C12
+//@   trusted "deep copy of slices and maps; writes only freshly allocated memory"
+//@   modifies nothing
+
+// @page rules: the page rule AND each margin-box rule nested in it are registered with
+// the specificity of the page selector (css-page-3 §3.3 cascading in the page context);
+// the selector's own copy is zeroed so that page types compare equal.
+//@ func preprocessStylesheet
+//@   props C03 C12
+//@   modifies anything
+//@   call append#2 assert selectors[0].specificity == specificity && selectors[0].pseudoType == "" && selectors[0].pageType == pageType
+//@   call append#3 assert selectors[0].specificity == specificity && selectors[0].pageType == pageType
+//@   unclaimed call-*-pre1 "token lists held in parsed rules contain no nil token: a data invariant of the parser's output that is not tracked through Compound values"
